@@ -370,8 +370,12 @@ where
         let approximate_nbr_frames =
             self.chunk_size as f64 * (0.5 * self.resample_ratio + 0.5 * self.target_ratio);
         let t_ratio_increment = (t_ratio_end - t_ratio) / approximate_nbr_frames;
+        // The step between output frames stays between the start and end values of the ramp:
+        // the margin at the end of the chunk must allow for the largest of them.
+        let t_ratio_min = t_ratio.min(t_ratio_end);
+        let t_ratio_max = t_ratio.max(t_ratio_end);
         let end_idx =
-            self.chunk_size as isize - (sinc_len as isize + 1) - t_ratio_end.ceil() as isize;
+            self.chunk_size as isize - (sinc_len as isize + 1) - t_ratio_max.ceil() as isize;
 
         // Update buffer with new data.
         // The history to keep is the end of the previously loaded chunk,
@@ -401,7 +405,7 @@ where
                 let mut points = [T::zero(); 4];
                 let mut nearest = [(0isize, 0isize); 4];
                 while idx < end_idx as f64 {
-                    t_ratio += t_ratio_increment;
+                    t_ratio = (t_ratio + t_ratio_increment).clamp(t_ratio_min, t_ratio_max);
                     idx += t_ratio;
                     get_nearest_times_4(idx, oversampling_factor as isize, &mut nearest);
                     let frac = idx * oversampling_factor as f64
@@ -427,7 +431,7 @@ where
                 let mut points = [T::zero(); 3];
                 let mut nearest = [(0isize, 0isize); 3];
                 while idx < end_idx as f64 {
-                    t_ratio += t_ratio_increment;
+                    t_ratio = (t_ratio + t_ratio_increment).clamp(t_ratio_min, t_ratio_max);
                     idx += t_ratio;
                     get_nearest_times_3(idx, oversampling_factor as isize, &mut nearest);
                     let frac = idx * oversampling_factor as f64
@@ -453,7 +457,7 @@ where
                 let mut points = [T::zero(); 2];
                 let mut nearest = [(0isize, 0isize); 2];
                 while idx < end_idx as f64 {
-                    t_ratio += t_ratio_increment;
+                    t_ratio = (t_ratio + t_ratio_increment).clamp(t_ratio_min, t_ratio_max);
                     idx += t_ratio;
                     get_nearest_times_2(idx, oversampling_factor as isize, &mut nearest);
                     let frac = idx * oversampling_factor as f64
@@ -479,7 +483,7 @@ where
                 let mut point;
                 let mut nearest;
                 while idx < end_idx as f64 {
-                    t_ratio += t_ratio_increment;
+                    t_ratio = (t_ratio + t_ratio_increment).clamp(t_ratio_min, t_ratio_max);
                     idx += t_ratio;
                     nearest = get_nearest_time(idx, oversampling_factor as isize);
                     for (chan, active) in self.channel_mask.iter().enumerate() {
